@@ -510,22 +510,51 @@ def check_term_classes(prog, rep):
     # merge-key completeness: what is overwritten on a merge is what was compared
     f = m.func('MultiCouplingTerms._insert_connection')
     rep.instance('TERMS-merge-key', {})
+    # fields of the connection tuple (positions) that are compared / taken over from the new one
+    newp = [p_ for p_ in params(f) if p_ != 'self'][-1]
+    unpack = {}
+    for s_ in stmts_of(f):
+        if isinstance(s_, ast.Assign) and isinstance(s_.targets[0], ast.Tuple) and \
+                unparse(s_.value) == newp:
+            for k_, e_ in enumerate(s_.targets[0].elts):
+                if isinstance(e_, ast.Name):
+                    unpack[e_.id] = k_
+
+    def fields(e):
+        if isinstance(e, ast.Subscript) and isinstance(e.slice, ast.Slice) and \
+                e.slice.lower is None and isinstance(e.slice.upper, ast.Constant):
+            return set(range(int(e.slice.upper.value)))
+        if isinstance(e, ast.Tuple):
+            return set(range(len(e.elts)))
+        return None
     cmp_bounds = set()
     for c in ast.walk(f):
         if isinstance(c, ast.Compare) and isinstance(c.ops[0], ast.Eq):
             for side in (c.left, c.comparators[0]):
-                if isinstance(side, ast.Subscript) and isinstance(side.slice, ast.Slice) and \
-                        side.slice.upper is not None:
-                    cmp_bounds.add(unparse(side.slice.upper))
-                elif isinstance(side, ast.Tuple):
-                    cmp_bounds.add(str(len(side.elts)))
+                fs = fields(side)
+                if fs is not None:
+                    cmp_bounds |= {str(x) for x in fs}
     ow_bounds = set()
-    for s in stmts_of(f):
-        if isinstance(s, ast.Assign) and 'self.connections[' in unparse(s.targets[0]):
-            for n in ast.walk(s.value):
-                if isinstance(n, ast.Subscript) and isinstance(n.slice, ast.Slice) and \
-                        n.slice.upper is not None:
-                    ow_bounds.add(unparse(n.slice.upper))
+    for s_ in stmts_of(f):
+        if isinstance(s_, ast.Assign) and 'self.connections[' in unparse(s_.targets[0]):
+            v = s_.value
+            parts = [v]
+            if isinstance(v, ast.BinOp) and isinstance(v.op, ast.Add):
+                parts = [v.left, v.right]
+            pos = 0
+            for part in parts:
+                if isinstance(part, ast.Subscript) and unparse(part.value) == newp:
+                    fs = fields(part) or set()
+                    ow_bounds |= {str(x) for x in fs}
+                    pos += len(fs)
+                elif isinstance(part, ast.Tuple):
+                    for e_ in part.elts:
+                        if isinstance(e_, ast.Name) and unpack.get(e_.id) == pos:
+                            ow_bounds.add(str(pos))
+                        elif isinstance(e_, ast.Subscript) and unparse(e_.value) == newp and \
+                                isinstance(e_.slice, ast.Constant) and e_.slice.value == pos:
+                            ow_bounds.add(str(pos))
+                        pos += 1
     if not cmp_bounds or not ow_bounds:
         raise AnalysisError('_insert_connection: merge comparison / overwrite not found')
     if cmp_bounds != ow_bounds:
